@@ -86,6 +86,17 @@ SCENARIOS = {
                    _ap([1, 1], aff='web', prio=3, limits={'server': 1}),
                    _ap([1, 1], aff='web', prio=9, limits={'server': 1})],
         groups={}, apps=['a1', 'a2', 'a3', 'a4', 'a5', 'a6', 'a7']),
+    # racks that hold a single roomy server: the rack limit is the binding one
+    'solo': dict(
+        dims=2, racks={'r1': ['s1'], 'r2': ['s2'], 'r3': ['s3', 's4']}, pods={'p1': ['r1', 'r2'], 'p2': ['r3']},
+        sprofiles=[_sp([3, 3])],
+        server_init={'s1': 1, 's2': 1, 's3': 1, 's4': 0},
+        allocs={'x': _al()},
+        aprofiles=[_ap([1, 1], aff='web', prio=5, limits={'rack': 1}),
+                   _ap([1, 1], aff='db', prio=6, limits={'rack': 2, 'pod': 2}),
+                   _ap([1, 1], aff='kv', prio=4, limits={'pod': 1}),
+                   _ap([1, 1], aff='low', prio=1)],
+        groups={}, apps=['a1', 'a2', 'a3', 'a4', 'a5', 'a6']),
     # identities: grow, shrink, delete, blacklist, schedule-once
     'identity': dict(
         dims=2, racks={'r1': ['s1', 's2']}, pods={},
